@@ -115,6 +115,7 @@ func (v *Verifier) lock(s *State, mu *Value, write bool, pos token.Pos) {
 				nv := freshValue("locked!"+gf, u.Field(i).Type())
 				s.assumeAllocated(nv)
 				s.storeStructField(obj, st, i, nv)
+				v.assumeMapValuesAllocated(s, nv)
 			}
 		}
 		if !found {
@@ -138,6 +139,13 @@ func (v *Verifier) lock(s *State, mu *Value, write bool, pos token.Pos) {
 	for _, inv := range tc.Invs[field] {
 		ev := &Eval{v: v, st: s, old: s, env: map[string]*Value{"self": scalar(types.NewPointer(st), obj)}, mode: evalCall, pkg: typePkg(st)}
 		s.assume(ev.boolExpr(inv.Expr))
+	}
+	// snapshot for locked(e): the state right after the first acquisition of a monitor in the function under verification
+	if s.frame != nil && s.frame.fn == v.top && v.lockSnap[key] == nil {
+		v.lockSnap[key] = s.clone()
+		if v.firstLockSnap == nil {
+			v.firstLockSnap = v.lockSnap[key]
+		}
 	}
 }
 
@@ -324,4 +332,27 @@ func (v *Verifier) applyCallback(s *State, it *Iterates, c *ssa.CallCommon, args
 	v.addOb(s, "pre", pos, ev.boolExpr(it.Where), "iterates "+it.Text, it.Props)
 	v.assumptions["callback "+it.Param+" of "+funcRef(s.frame.fn)+": result havoc'd, assumed not to modify the caller's state"] = true
 	return v.havocResult(s, resultType(c), "callback")
+}
+
+
+// assumeMapValuesAllocated: every reference stored in a map that exists now was allocated before now.
+func (v *Verifier) assumeMapValuesAllocated(s *State, m *Value) {
+	mt, ok := under(m.T).(*types.Map)
+	if !ok {
+		return
+	}
+	ks := mapKeySorts(mt)
+	var keys []*Term
+	for i, k := range ks {
+		keys = append(keys, BoundVar(fmt.Sprintf("k!alloc%d", i), k))
+	}
+	for _, sp := range leafSpecs(mt.Elem()) {
+		isRef := sp.Kind == "arr" || sp.Kind == "data" || (sp.Kind == "" && sp.GoT != nil && sp.Sort == SInt && !isInteger(sp.GoT) && !isFloat(sp.GoT))
+		if !isRef {
+			continue
+		}
+		h := s.heapArr(mapBase(m.T)+"#val"+sp.Suffix, ArrSort(SInt, nestSort(ks, sp.Sort)))
+		sel := selectN(Select(h, m.term()), keys)
+		s.assume(Forall(keys, Le(sel, s.wm), []*Term{sel}))
+	}
 }
